@@ -28,10 +28,15 @@ META = {
         "quick": {"L": "3-4", "bond dim": 2, "phys dim": 2, "entries": "real symbols", "history length": "<= 3 operations",
                   "gates": "symbolic 4x4 (non-unitary)", "truncation": "none (cutoff=0)"},
         "thorough": {"L": 4, "history length": "<= 3, all ordered pairs of operations from the vocabulary"},
+        "numeric-only sweeps (labelled)": {"swap_all_pairs_numeric": "L=4 (quick), 5-6: every ordered site pair x absorb x starting centre, random complex states",
+                                           "nonlocal_gate_options_numeric": "L=4 (quick), 5: gate_nonlocal / gate(contract='nonlocal') / gate_with_submpo x method in (direct, dm, zipup) x normalize x sweep_reverse x 7 site tuples x 4 starting records, cutoff=0",
+                                           "circuit_copy_independence_numeric": "CircuitMPS / CircuitPermMPS / Circuit N=4 (quick), N=5 and CircuitDense (thorough): copy() then gates on one object, every query on the other; random unitaries"},
     },
     "outside": ["whether canonicalize() reaches the requested window with the fewest moves",
                 "calc_current_orthog_center / count_canonized (numerical detector using allclose): a record is always supplied",
-                "cyclic MPS", "truncating calls", "random sampling statistics (outcomes are fixed / enumerated)",
+                "cyclic MPS", "truncating calls", "equalize_norms=True in the sub-MPO gate (rescales the isometric tensors; reported separately)",
+                "sub-MPO gate compression methods other than direct / dm / zipup (zipup-first raises on a sub-region; sdc / src* / fit are randomised or iterative)",
+                "CircuitMPS.local_expectation(..., dtype=...) / convert_eager=False (canonicalises a private copy; not exercised)", "random sampling statistics (outcomes are fixed / enumerated)",
                 "complex entries in the history / canonicalize_window families (real symbols there; complex states and operators are symbolic in the consumer family, L = 3, kind=cplx cells)"],
     "assumptions": ["LAPACK qr/svd return factors meeting their contracts (stubs); QR stub has positive diagonal",
                     "singular values strictly positive (generic full-rank state)"],
@@ -131,14 +136,19 @@ def apply_op(mk, psi, info, op, k):
         where = op[1]
         G = mk.array(f"G{k}", (d * d, d * d), "real")
         want = gate_ref(G, where, L, before)
+        kw = dict(op[2]) if len(op) > 2 else {}
+        if kw.get("normalize") or kw.get("sweep_reverse"):
+            # normalised result / reversed sweep (state-equality certificate beyond the budget): the record and the
+            # flags are what is certified here; the state itself is compared in nonlocal_gate_options_numeric
+            want = None
         if kind == "gate2":
             psi.gate_with_auto_swap_(G, where, info=info, cutoff=0.0)
         elif kind == "gate_swap+split":
             psi.gate_(G, where, contract="swap+split", info=info, cutoff=0.0)
         elif kind == "nonlocal":
-            psi.gate_nonlocal_(G, where, info=info, cutoff=0.0)
+            psi.gate_nonlocal_(G, where, info=info, cutoff=0.0, **kw)
         else:
-            psi.gate_(G, where, contract="nonlocal", info=info, cutoff=0.0)
+            psi.gate_(G, where, contract="nonlocal", info=info, cutoff=0.0, **kw)
         return psi, want
     if kind == "gate1":
         i = op[1]
@@ -465,6 +475,18 @@ HISTORIES = [
     _h(("canon", 3), ("nonlocal", (0, 3)), ("rdm", (1,)), tiers=_T),
     _h(("canon", 0), ("measure", 3, 1, True), ("svals", 1), tiers=_T),
 ]
+# fourth round (thorough only, not mandatory: the L = 4 certificates are the heaviest): every site pair of the swap
+# routines on L = 4 incl. non-adjacent and descending; sub-MPO gate ('direct') x normalize x sweep_reverse on L = 3.
+# The numeric sweeps swap_all_pairs_numeric / nonlocal_gate_options_numeric cover the same calls in the quick tier.
+for i_, j_ in itertools.permutations(range(4), 2):
+    HISTORIES.append(_h(("canon", (i_ + 1) % 4), ("swap", i_, j_, None), tiers=_T))
+    if abs(i_ - j_) > 1:
+        HISTORIES.append(_h(("canon", j_), ("swapto", i_, j_), tiers=_T))
+for nrm_ in (False, True):
+    for rev_ in (False, True):
+        if nrm_ or rev_:
+            HISTORIES.append(_h(("canon", 1), ("nonlocal", (0, 2), {"normalize": nrm_, "sweep_reverse": rev_}), L=3, tiers=_T, mand=False))
+            HISTORIES.append(_h(("canon", 0), ("submpo", (2, 1), {"normalize": nrm_, "sweep_reverse": rev_}), L=3, tiers=_T, mand=False))
 
 
 @obligation(PROP, params=HISTORIES, rounds=2, timeout_s=240, max_rows=60000, wall_s=200, solver_timeout_ms=60000)
@@ -507,3 +529,196 @@ def magnetization_directions_numeric(mk, spin):
             p2 = psi.copy()
             p2.canonicalize_((i + 1) % L, info=info)
             mk.eq(f"[numeric-only] spin dim {spin}: magnetization({i}, '{dirn}') with a record", p2.magnetization(i, dirn, info=info), want, tol=1e-9)
+
+
+# ---------------------------------------------------------------------- fourth round: configuration sweeps
+# (every site pair of the swap routines; every method x normalize x sweep_reverse of the sub-MPO gate; independence of a
+# circuit object and its copy).  The sweeps below are NUMERIC-ONLY supplements (random complex states, real LAPACK): the
+# symbolic certificates of the same calls are the `history` cells (L = 3 quick; the L = 4 swap pairs appended to HISTORIES
+# run in the thorough tier only) -- a false record makes the certificate search run to its budget (inconclusive), while
+# the numeric sweep reports it at once.
+
+def _num_state(mk, L, tag=""):
+    arrays = []
+    for i in range(L):
+        shp = (D, d) if i in (0, L - 1) else (D, D, d)
+        arrays.append(np.asarray(mk.array(f"T{tag}{i}", shp, "cplx"), dtype=complex))
+    psi = qtn.MatrixProductState(arrays)
+    return psi / psi.norm()
+
+
+def _num_consumers(mk, psi, info, tag, sites=None):
+    """canonical-form consumers called with the record on private copies, against the dense definition of the SAME state"""
+    L = psi.L
+    v = np.asarray(dense(psi), dtype=complex).reshape(-1)
+    Z = np.array([[1.0, 0.3 - 0.2j], [0.3 + 0.2j, -1.0]])
+    for s in (range(L) if sites is None else sites):
+        p, inf = psi.copy(), dict(info)
+        got = p.local_expectation_canonical(Z, (s,), normalized=False, info=inf)
+        want = np.vdot(v, np.asarray(ref.embed(Z, [d] * L, (s,)), dtype=complex) @ v)
+        mk.eq(f"[numeric-only] {tag}: local_expectation_canonical(({s},), record) == <psi|O|psi>", got, want, tol=1e-8)
+    for b in (range(1, L) if sites is None else [s for s in sites if s >= 1]):
+        p, inf = psi.copy(), dict(info)
+        s2 = np.sort(np.asarray(p.schmidt_values(b, info=inf), dtype=float))[::-1]
+        sv = np.linalg.svd(v.reshape(d ** b, -1), compute_uv=False) ** 2
+        k = max(len(s2), len(sv))
+        a, c = np.zeros(k), np.zeros(k)
+        a[:len(s2)], c[:len(sv)] = s2, sv
+        mk.eq(f"[numeric-only] {tag}: schmidt_values({b}, record) == squared singular values of the dense state", a, c, tol=1e-8)
+
+
+_SWP = [{"L": 4, "op": "swap", "_tiers": _Q}, {"L": 4, "op": "swapto", "_tiers": _Q},
+        {"L": 5, "op": "swap", "_tiers": _T}, {"L": 5, "op": "swapto", "_tiers": _T}, {"L": 6, "op": "swap", "_tiers": _T}]
+
+
+@obligation(PROP, params=_SWP, numeric=True, num_trials=1, timeout_s=300)
+def swap_all_pairs_numeric(mk, L, op):
+    """[numeric-only supplement] swap_sites_with_compress(i, j, info) for EVERY ordered site pair i != j (adjacent,
+    non-adjacent, descending) x every absorb mode, and swap_site_to(i, f, info) for every i != f, from every starting
+    centre (and from no record): the state is the permuted state, the outgoing record is true (every site outside it
+    isometric), and canonical-form consumers called with that record agree with the dense definition"""
+    mk.encodes(c1.TensorNetwork1DFlat.swap_sites_with_compress, c1.TensorNetwork1DFlat.swap_site_to)
+    if mk.sym:
+        mk.note("numeric-only: configuration sweep (hundreds of calls); symbolic certificates of the same calls: history cells")
+        mk.same("numeric-only cell (symbolic run skipped)", True, True)
+        return
+    psi0 = _num_state(mk, L)
+    absorbs = (None, "left", "right", "both") if op == "swap" else (None,)
+    for c in (None,) + tuple(range(L)):
+        for i, j in itertools.permutations(range(L), 2):
+            for ab in absorbs:
+                psi = psi0.copy()
+                info = {"cur_orthog": None}
+                if c is not None:
+                    psi.canonicalize_(c, info=info)
+                o = ("swap", i, j, ab) if op == "swap" else ("swapto", i, j)
+                tag = f"L={L} centre {c} {o}"
+                psi, want = apply_op(mk, psi, info, o, 0)
+                mk.eq(f"[numeric-only] {tag}: state is the permuted state", dense(psi), want, tol=1e-8)
+                check_record(mk, psi, info, f"[numeric-only] {tag}")
+                if ab in (None, "both") and (c in (None, 0, L - 1)):
+                    _num_consumers(mk, psi, info, tag, sites=sorted({0, min(i, j), max(i, j), L - 1}))
+
+
+_NLM_Q = ("direct", "dm", "zipup")
+_NLM_T = ()      # 'zipup-first' (oversampling) raises KeyError inside gate_with_submpo for a region not starting at site 0: rejected, not covered
+_NLP = [{"L": L_, "method": m_, "via": v_, "_tiers": _Q if (L_ == 4 and m_ in _NLM_Q and v_ == "gate_nonlocal") else _T}
+        for L_ in (4, 5) for m_ in _NLM_Q + _NLM_T for v_ in ("gate_nonlocal", "gate", "gate_with_submpo")]
+
+
+@obligation(PROP, params=_NLP, numeric=True, num_trials=1, timeout_s=300)
+def nonlocal_gate_options_numeric(mk, L, method, via):
+    """[numeric-only supplement] gate_nonlocal / gate(contract='nonlocal') / gate_with_submpo with EVERY combination of
+    method x normalize in (False, True) x sweep_reverse in (False, True) x site tuple (two- and three-site, ascending and
+    descending, nearest and far) from every starting centre, cutoff=0: the state is the gated state (normalised when
+    normalize=True), the outgoing record is true, consumers called with it agree with the dense definition"""
+    mk.encodes(c1.MatrixProductState.gate_nonlocal, c1.MatrixProductState.gate_with_submpo)
+    if mk.sym:
+        mk.note("numeric-only: dm / zipup compressors decide ranks numerically; option sweep. Symbolic certificates of the "
+                "default options ('direct'): history cells ('nonlocal', 'submpo')")
+        mk.same("numeric-only cell (symbolic run skipped)", True, True)
+        return
+    psi0 = _num_state(mk, L)
+    wheres = [(0, 1), (1, 3), (3, 1), (0, L - 1), (L - 1, 0), (1, 2, L - 1), (L - 1, 0, 2)]
+    if via == "gate_with_submpo":
+        wheres = [w for w in wheres if list(w) == sorted(w)]
+    for w in wheres:
+        G = np.asarray(mk.array("G" + "".join(map(str, w)), (d ** len(w),) * 2, "cplx"), dtype=complex)
+        for c in (None, 0, L // 2, L - 1):
+            for normalize in (False, True):
+                for rev in (False, True):
+                    psi = psi0.copy()
+                    info = {"cur_orthog": None}
+                    if c is not None:
+                        psi.canonicalize_(c, info=info)
+                    want = np.asarray(gate_ref(G, w, L, np.asarray(dense(psi), dtype=complex)), dtype=complex)
+                    if normalize:
+                        want = want / np.linalg.norm(want.reshape(-1))
+                    opts = {"method": method, "cutoff": 0.0, "normalize": normalize, "sweep_reverse": rev}
+                    tag = f"L={L} centre {c} {via}{w} method={method} normalize={normalize} sweep_reverse={rev}"
+                    if via == "gate_nonlocal":
+                        psi.gate_nonlocal_(G, w, info=info, **opts)
+                    elif via == "gate":
+                        psi.gate_(G, w, contract="nonlocal", info=info, **opts)
+                    else:
+                        mpo = qtn.MatrixProductOperator.from_dense(G, dims=d, sites=w, L=L)
+                        psi.gate_with_submpo_(mpo, info=info, **opts)
+                    mk.eq(f"[numeric-only] {tag}: state as expected", dense(psi), want, tol=1e-7)
+                    check_record(mk, psi, info, f"[numeric-only] {tag}")
+                    _num_consumers(mk, psi, info, tag, sites=sorted({min(w), max(w), (min(w) + max(w)) // 2}))
+
+
+def _num_unitary(mk, name, n):
+    a = np.asarray(mk.array(name, (n, n), "cplx"), dtype=complex)
+    q, r = np.linalg.qr(a)
+    return q * (np.diag(r) / np.abs(np.diag(r)))
+
+
+def _circ_apply(circ, v, prog, N):
+    """apply (U, where) / ('SWAP', where) items to the circuit and to the dense reference vector"""
+    for U, w in prog:
+        if isinstance(U, str):
+            circ.apply_gate(U, *w)
+            U = np.array([[1, 0, 0, 0], [0, 0, 1, 0], [0, 1, 0, 0], [0, 0, 0, 1]], dtype=complex)
+        else:
+            circ.apply_gate_raw(U, w)
+        v = np.asarray(ref.embed(U, [2] * N, tuple(w)), dtype=complex) @ v
+    return v
+
+
+def _circ_check(mk, circ, v, N, tag, mps):
+    mk.eq(f"[numeric-only] {tag}: to_dense() == reference state of its OWN gate list", np.asarray(circ.to_dense()).reshape(-1), v, tol=1e-8)
+    if mps:
+        info = circ.gate_opts["info"]
+        check_record(mk, circ._psi, info, f"[numeric-only] {tag}: gate_opts['info'] vs its own state")
+        mk.eq(f"[numeric-only] {tag}: fidelity_estimate() == 1 (no truncation)", circ.fidelity_estimate(), 1.0, tol=1e-8)
+        _num_consumers(mk, circ._psi.copy(), dict(info), tag + " (state + record)", sites=(0, N // 2, N - 1))
+    O = np.array([[0.7, 0.2 - 0.5j], [0.2 + 0.5j, -0.4]])
+    for s in range(N):
+        want = np.vdot(v, np.asarray(ref.embed(O, [2] * N, (s,)), dtype=complex) @ v)
+        mk.eq(f"[numeric-only] {tag}: local_expectation(O, {s}) == <psi|O|psi>", circ.local_expectation(O, s), want, tol=1e-8)
+    if mps:
+        check_record(mk, circ._psi, circ.gate_opts["info"], f"[numeric-only] {tag}: gate_opts['info'] after the queries")
+
+
+@obligation(PROP, params=[{"sim": "CircuitMPS", "N": 4, "_tiers": _Q}, {"sim": "CircuitMPS", "N": 5, "_tiers": _T},
+                          {"sim": "CircuitPermMPS", "N": 4, "_tiers": _Q}, {"sim": "CircuitPermMPS", "N": 5, "_tiers": _T},
+                          {"sim": "Circuit", "N": 4, "_tiers": _Q}, {"sim": "CircuitDense", "N": 4, "_tiers": _T}],
+            numeric=True, num_trials=1, timeout_s=300)
+def circuit_copy_independence_numeric(mk, sim, N):
+    """[numeric-only supplement] c2 = c.copy(); gates applied to ONE of the two objects (every two-qubit location incl.
+    non-adjacent and descending, one-qubit gates, non-adjacent SWAP) never change what the OTHER answers: to_dense, the
+    gate_opts['info'] record being true for its own state, fidelity_estimate, canonical consumers through the record,
+    local_expectation -- each equal to the dense reference of the object's own gate list; both directions (copy evolved,
+    original queried; then original evolved, copy queried)"""
+    from quimb.tensor.circuit import core as ccore
+    mk.encodes(ccore.CircuitBase.copy)
+    if mk.sym:
+        mk.note("numeric-only: object-independence sweep over many gate locations on two live circuit objects")
+        mk.same("numeric-only cell (symbolic run skipped)", True, True)
+        return
+    cls = getattr(qtn, sim)
+    mps = sim in ("CircuitMPS", "CircuitPermMPS")
+    base = [(_num_unitary(mk, f"u{q}", 2), (q,)) for q in range(N)]
+    base += [(_num_unitary(mk, f"b{q}", 4), (q, q + 1)) for q in range(N - 1)]
+    base += [(_num_unitary(mk, "bf", 4), (N - 1, 1)), ("SWAP", (0, N - 2))]
+    base += [(_num_unitary(mk, f"c{q}", 4), (q + 1, q)) for q in range(N - 1)]          # centre ends near the right end
+    exts = [[(_num_unitary(mk, f"e{i}{j}", 4), (i, j))] for i, j in itertools.permutations(range(N), 2)
+            if (i, j) in ((0, 1), (1, 0), (N - 2, N - 1), (0, N - 1), (N - 1, 0), (1, N - 1), (1, 2))]
+    exts += [[("SWAP", (0, N - 1))], [("SWAP", (N - 1, 1))], [(_num_unitary(mk, "e1q", 2), (0,)), (_num_unitary(mk, "e2q", 4), (0, 1))]]
+    v0 = np.zeros(2 ** N, dtype=complex)
+    v0[0] = 1.0
+    for k, E in enumerate(exts):
+        F = exts[(k + 3) % len(exts)]
+        c = cls(N)
+        vc = _circ_apply(c, v0, base, N)
+        c2 = c.copy()
+        v2 = _circ_apply(c2, vc, E, N)
+        el = [(u if isinstance(u, str) else "U", w) for u, w in E]
+        fl = [(u if isinstance(u, str) else "U", w) for u, w in F]
+        _circ_check(mk, c, vc, N, f"{sim} N={N} original after copy got {el}", mps)
+        _circ_check(mk, c2, v2, N, f"{sim} N={N} copy after it got {el}", mps)
+        vc = _circ_apply(c, vc, F, N)
+        _circ_check(mk, c2, v2, N, f"{sim} N={N} copy after original got {fl}", mps)
+        _circ_check(mk, c, vc, N, f"{sim} N={N} original after it got {fl}", mps)
+        mk.same(f"[numeric-only] {sim} N={N}: gate lists independent", (len(c.gates), len(c2.gates)), (len(base) + len(F), len(base) + len(E)))
